@@ -214,7 +214,9 @@ Next ==
     \/ \E s \in Slots, h \in {"r", "w"} : DropHalf(s, h)
     \/ Crash
     \/ \E n \in NameU : Lookup(n)
-    \/ \E k \in 1..(Cardinality(NameU) + 1) : Reverse(k)
+    \* addresses inside the subnet (assigned or not) and addresses the DNS never hands out
+    \* (-1 loopback, -2 outside the subnet, -3 the other address family, -4 a neighbouring prefix)
+    \/ \E k \in (1..(Cardinality(NameU) + 1)) \cup {-1, -2, -3, -4} : Reverse(k)
     \/ \E k \in {0} : Literal(k)
     \/ \E m \in Patterns : Regex(m)
 
